@@ -330,12 +330,15 @@ def write_evidence(mod, tier, seed, cov, wall, violations, assumptions=None):
     os.rename(tmp, os.path.join(EVID, mod.ID + ".json"))
 
 
-def save_replay(mod, case, msg, tag="fail"):
+def save_replay(mod, case, msg, tag="fail", build_name=None):
     d = os.path.join(OUT, mod.ID)
     os.makedirs(d, exist_ok=True)
     p = os.path.join(d, "%s-%s.case" % (tag, case_hash(case)))
+    rec = {"property": mod.ID, "case": case, "message": msg}
+    if build_name:
+        rec["build"] = build_name
     with open(p, "w") as f:
-        json.dump({"property": mod.ID, "case": case, "message": msg}, f, indent=1)
+        json.dump(rec, f, indent=1)
     return p
 
 
@@ -444,9 +447,24 @@ def main(modname, argv):
         print("ERROR %s" % e)
         return 3
 
+    # modules with ALT_BUILD = True get a second set of executors (gcc -O0 instead of clang -O1 ASan): a quarter of the
+    # Hypothesis workers use them; a failing case remembers its build ("build" in the replay file)
+    paths_alt = None
+    if getattr(mod, "ALT_BUILD", False):
+        os.environ["VERIF_ALT_BUILD"] = "plain"
+        try:
+            paths_alt = mod.prepare(tier)
+        except build.BuildError as e:
+            print("ERROR %s" % e)
+            return 3
+        finally:
+            del os.environ["VERIF_ALT_BUILD"]
+
     if a.replay:
         try:
             case, meta = load_case(a.replay)
+            if isinstance(meta, dict) and meta.get("build") == "plain" and paths_alt:
+                paths = paths_alt
         except (ValueError, KeyError, UnicodeDecodeError):
             # not a JSON case: a libFuzzer artifact - run the module's fuzz target(s) on it
             env = dict(os.environ, ASAN_OPTIONS="detect_leaks=0", FZ_EXPLAIN="1")
@@ -502,19 +520,21 @@ def main(modname, argv):
     nreg = 0
     for f in sorted(glob.glob(os.path.join(rdir, "*.case"))):
         case, meta = load_case(f)
-        ctx = Ctx(paths)
-        try:
-            res = mod.run_case(ctx, case)
-        finally:
-            ctx.close()
-        stats.add(case, res, sfn)
+        for pp in ([paths, paths_alt] if paths_alt else [paths]):       # former failing cases run on both builds
+            ctx = Ctx(pp)
+            try:
+                res = mod.run_case(ctx, case)
+            finally:
+                ctx.close()
+            stats.add(case, res, sfn)
+            if res.fail:
+                n, msg = confirm(mod, pp, case)
+                if n == 3:
+                    violations.append((f, res.fail))
+                else:
+                    unstable.append((f, res.fail))
+                break
         nreg += 1
-        if res.fail:
-            n, msg = confirm(mod, paths, case)
-            if n == 3:
-                violations.append((f, res.fail))
-            else:
-                unstable.append((f, res.fail))
     extra["regress_cases"] = nreg
 
     # 3. optional exhaustive / enumerated phase owned by the module
@@ -535,11 +555,13 @@ def main(modname, argv):
 
     # 4. Hypothesis workers
     errors = []
+    alt_w = set()
     budget = a.examples or mod.BUDGET[tier]
     nworkers = a.workers or getattr(mod, "WORKERS", {"quick": 4, "thorough": 16})[tier]
     if budget > 0 and not violations:
         per = max(1, budget // nworkers)
-        jobs = [(modname, tier, seed, w, per, paths) for w in range(nworkers)]
+        alt_w = set(w for w in range(nworkers) if paths_alt and w % 4 == 3)
+        jobs = [(modname, tier, seed, w, per, paths_alt if w in alt_w else paths) for w in range(nworkers)]
         with mp.get_context("fork").Pool(nworkers) as pool:
             results = pool.map(_worker, jobs, chunksize=1)
         seen_fail = set()
@@ -564,15 +586,18 @@ def main(modname, argv):
                     continue
                 seen_fail.add(h)
                 need = getattr(mod, "CONFIRM", (3, 3))
+                wb = "plain" if r["widx"] in alt_w else None
+                if wb:
+                    msg = "[gcc -O0 build] " + msg
                 if len(violations) >= 2:
                     # two confirmed violations are enough to report; further failing cases are only listed
-                    unstable.append((save_replay(mod, case, msg, "unconfirmed"), "not re-run (two violations already confirmed): " + msg))
+                    unstable.append((save_replay(mod, case, msg, "unconfirmed", wb), "not re-run (two violations already confirmed): " + msg))
                     continue
-                n, m2 = confirm(mod, paths, case, need[1], need[0])
+                n, m2 = confirm(mod, paths_alt if wb else paths, case, need[1], need[0])
                 if n >= need[0]:
-                    violations.append((save_replay(mod, case, msg), msg))
+                    violations.append((save_replay(mod, case, msg, "fail", wb), msg))
                 else:
-                    unstable.append((save_replay(mod, case, msg, "unstable"), msg))
+                    unstable.append((save_replay(mod, case, msg, "unstable", wb), msg))
 
     if getattr(mod, "FUZZ", None) and not violations:
         fz, fv = fuzz_phase(mod, paths, tier, seed)
@@ -583,7 +608,7 @@ def main(modname, argv):
     cov = {"evaluations": stats.evals, "distinct_nontrivial": len(stats.nontrivial),
            "rule": mod.RULE, "samples": (stats.sample_nt + stats.samples)[:8],
            "events": dict(sorted(stats.events.items())), "unstable": [u[1][:300] for u in unstable],
-           "errors": errors[:3], "engine": "hypothesis %d workers, seed %d" % (nworkers, seed)}
+           "errors": errors[:3], "engine": "hypothesis %d workers, seed %d%s" % (nworkers, seed, (" (workers %s on the gcc -O0 build)" % ",".join(str(w) for w in sorted(alt_w))) if (budget > 0 and not violations and paths_alt and alt_w) else "")}
     cov.update(extra)
     write_evidence(mod, tier, seed, cov, wall, len(violations))
     for ln in known_lines:
